@@ -6,11 +6,14 @@ from harness.common.rng import Rng
 from harness.common import sim
 
 PROP = "C46"
-LEAN_MODULES = ["LunaVerif.Props.C46"]
+LEAN_MODULES = ["LunaVerif.Props.C46", "LunaVerif.Lemmas.C46View", "LunaVerif.Lemmas.C46Buf", "LunaVerif.Lemmas.C46Ghost",
+                "LunaVerif.Lemmas.C46StepIdle", "LunaVerif.Lemmas.C46StepSend", "LunaVerif.Lemmas.C46StepAck",
+                "LunaVerif.Props.C46Once"]
 DRIVER = "Driver/C46.lean"
 REQUIRED_THEOREMS = ["seq_advances_only_on_ack", "seq_advances_on_accepting_ack", "retry_resends_same",
                      "nrdy_then_erdy", "in_request_answered", "header_fields_always", "last_word_held",
-                     "ss_in_buffers_partial"]
+                     "ss_in_buffers_partial",
+                     "view_next", "inv_step", "ss_in_exactly_once", "ss_in_delivered_prefix", "ss_in_all_delivered"]
 RULE = ("cases = (max_packet_size in 8/16/32/64(/1024 thorough), endpoint 1..15) x reactive scripts: producer transfers with "
         "lengths around 0/mps/2*mps, partial last words, idle gaps, continuous (last=0) mode; host issuing IN requests "
         "(ACK TP with NumP>=1), accepting with NumP 0/1, asking for retries (Retry=1 or repeated sequence number), "
@@ -19,16 +22,27 @@ RULE = ("cases = (max_packet_size in 8/16/32/64(/1024 thorough), endpoint 1..15)
 ASSUMPTIONS = [
     "producer: stream.valid is a byte-prefix mask, a partial word only together with last, word held until ready",
     "host: one outstanding data packet; ACK TPs answer the packet last sent; no IN request while flow-controlled by NRDY",
+    "ss_in_exactly_once (EnvOK, checked in every cycle of the history): no ep_reset; stream.valid in {0,1,3,7,15} and a "
+    "partial word only with last; an ACK TP for this endpoint only while tx.valid = 0 and carrying next_sequence = the "
+    "number the host expects (the host accepts a packet iff it carries that number and the link did not lose it); "
+    "Retry bit, NumP, tx.ready, done, flow control arbitrary; configuration: max_packet_size % 4 = 0, >= 8, "
+    "max_packet_size/4 <= 2^address_width",
 ]
 PARTIAL = ("the model is SuperSpeedStreamInEndpoint as repaired by six fix: commits (branch wt-ssep: 1df4da8 ddf15b0 ce4a978 "
            "f170f77 50f0842 5e057c5); the unrepaired code violated C46 in six ways (KNOWN_FINDINGS C46), all replayed. "
-           "Proved: one-step theorems (sequence number advances exactly on accepting ACKs; a retry re-sends the same "
-           "data packet / ZLP with the same number; an IN request is answered in the same cycle by NRDY, ZLP or "
-           "SEND_PACKET; header fields driven in every cycle; an untaken tx word is held; buffer bounds and read/write "
-           "buffer separation) and the history-level theorem nrdy_then_erdy (no data packet or ZLP starts between an NRDY "
-           "and the completed ERDY, for all histories). NOT proved: the history-level host-view theorem "
-           "ss_in_exactly_once (accepted ++ pending = producer-accepted, keyed on sequence numbers) including the "
-           "packet-emission lemma and the ZLP follow-up branch; the monitor checks that statement on every trace.")
+           "Proved: the history-level host-view theorem ss_in_exactly_once (for every history allowed by the environment, at "
+           "every cycle: bytes accepted by the host, keyed on sequence numbers, ++ bytes pending in the ping-pong buffers = "
+           "bytes accepted from the producer; corollaries ss_in_delivered_prefix, ss_in_all_delivered), by an inductive "
+           "invariant over a toggle-free formulation proved equal to the co-simulated model (view_next), including packet "
+           "emission under arbitrary tx.ready, retries after lost or duplicated packets and the ZLP follow-up branch; the "
+           "history-level theorem nrdy_then_erdy; and the one-step theorems (sequence number advances exactly on accepting "
+           "ACKs, a retry re-sends the same packet / ZLP with the same number, an IN request is answered in the same cycle, "
+           "header fields, untaken tx word held, buffer bounds). NOT proved: the framing half of the host view at history "
+           "level (every accepted data packet is max_packet_size long or ends a transfer; a ZLP is sent exactly after a "
+           "full packet that ended its transfer) -- the monitor checks it on every trace (sig ss-in-framing); the ERDY "
+           "liveness only as the one-step theorem nrdy_leads_to_erdy_request. max_packet_size = 4 is outside the theorem "
+           "(CfgOK needs >= 8): with one-word buffers a word written in the cycle of an ACK+IN buffer swap is read stale "
+           "(Lean example hStale, replayed on the gateware, see notes/C46.md).")
 
 T_ANSWER = 24
 T_STUCK = 120
